@@ -106,6 +106,18 @@ theorem ledger_step (p : Pool) (op : Op) (hk : KeysMatch p.store) :
   | withdraw sigOk wallet nonce now settleOk => exact Withdraw_ledger p sigOk wallet nonce now settleOk
   | deposit wallet amt => simp [step, settled]
 
+/-- a keep-alive whose final balance read-back fails (deposit lookup over the contract proxy) is a *failed*
+request: it still leaves the ledger where it was - the hosts' credits and the client's debit have both been applied
+by then, whatever the pattern of failing per-peer credit calls -/
+theorem update_read_fault_zero_sum (p : Pool) (sigOk : Bool) (id : String) (nonce : Int) (reported : List String)
+    (block : Nat) (now mnow : Int) (fail : Nat → Bool) (hk : KeysMatch p.store) :
+    ledgerSum (p.UpdateReadFault sigOk id nonce reported block now mnow fail).1.store = ledgerSum p.store := by
+  have h := Update_ledger p sigOk id nonce reported block now mnow fail hk
+  unfold UpdateReadFault
+  simp only
+  repeat' split
+  all_goals exact h
+
 /-- **Zero-sum, every history.** -/
 theorem ledger_history (p : Pool) (ops : List Op) (hk : KeysMatch p.store) :
     ledgerSum (run p ops).store = ledgerSum p.store - settledTotal p ops := by
